@@ -514,7 +514,18 @@ fn apply<T: Elem>(st: &mut State<T>, step: &Step, counts: &mut Vec<&'static str>
             let add = step.arg(1).clamp(0, 40) as usize;
             let Some(slot) = st.slots[s].as_mut() else { return Ok("Reserve noop".into()) };
             let before = view_of(&slot.v);
-            track(|| slot.v.reserve(add));
+            if step.arg(2) & 1 == 1 {
+                counts.push("party.c");
+                // a C caller asks for room through the stored function, whether or not there is some
+                // already, and uses the capacity the function reports
+                unsafe {
+                    let vp = &mut slot.v as *mut CVec<T> as *mut VecView<T>;
+                    let reported = track(|| ((*vp).reserve_fn.expect("reserve_fn null"))(vp, add));
+                    vcheck!(reported == (*vp).capacity, "vec.reserve_report", "reserve_fn", "reserve_fn({}) returned {} but left capacity={} (len={}) in the vector", add, reported, (*vp).capacity, (*vp).len);
+                }
+            } else {
+                track(|| slot.v.reserve(add));
+            }
             let after = view_of(&slot.v);
             vcheck!(after.capacity - after.len >= add, "vec.reserve_no_room", "reserve", "reserve({}) left capacity={} len={}", add, after.capacity, after.len);
             if after.data != before.data {
@@ -720,7 +731,7 @@ impl Engine for VecEngine {
                     };
                     p.push(t, op, &[s0, pos, oob as i64]);
                 }
-                "Reserve" => p.push(t, op, &[s0, *rng.pick(&[0, 1, 1, 2, 5, 17, 40])]),
+                "Reserve" => p.push(t, op, &[s0, *rng.pick(&[0, 1, 1, 2, 5, 17, 40]), party]),
                 "Clone" => p.push(t, op, &[s0, rng.below(pool as u64) as i64]),
                 "Write" => p.push(t, op, &[s0, rng.range(0, 30), party]),
                 "Drop" => p.push(t, op, &[s0, party]),
